@@ -5,7 +5,7 @@ import z3
 
 from . import values as V
 from .values import (Opt, Ptr, Opaque, Ref, StrV, BytesV, FuncV, ModV, HList, HDict, HRec, HSet, HRecList, ElemRef,
-                     is_sym, is_int_like,
+                     HPointMap, PMEntry, is_sym, is_int_like,
                      is_bool_like, to_z3, parse_type)
 
 I = z3.IntSort()
@@ -546,6 +546,8 @@ def _s_member(eng, st, cont, item):
 
 @specfn("pm_has")
 def _s_pm_has(eng, st, m, px, py, idx):
+  if isinstance(m, Ptr) and isinstance(st.deref(m), HPointMap):
+    m = st.deref(m)
   return PM_HAS(m.term, to_z3(eng.need_int(st, px)), to_z3(eng.need_int(st, py)), to_z3(eng.need_int(st, idx)))
 
 
@@ -2220,6 +2222,18 @@ def call_method(eng, st, selfv, name, args, kwargs, node):
         o.length = o.length + 1
         return e
     raise Unsupported(f"method {name} on {type(o).__name__}")
+  if isinstance(selfv, PMEntry):
+    if name != "append" or len(args) != 1:
+      raise Unsupported(f"method {name} on a point-map entry")
+    o = st.deref(selfv.ptr)
+    kx, ky = [to_z3(eng.need_int(st, c, node)) for c in selfv.key]
+    iv = to_z3(eng.need_int(st, args[0], node))
+    t2 = z3.Const(V.fresh_name("pointmap"), V.RefSort)
+    x, y, i = z3.Ints(f"{V.fresh_name('pmx')} {V.fresh_name('pmy')} {V.fresh_name('pmi')}")
+    st.assume(z3.ForAll([x, y, i], PM_HAS(t2, x, y, i) == z3.Or(PM_HAS(o.term, x, y, i),
+                                                                 z3.And(x == kx, y == ky, i == iv))))
+    o.term = t2
+    return None
   if isinstance(selfv, (str, StrV)):
     return str_method(eng, st, selfv, name, args, kwargs, node)
   if isinstance(selfv, (bytes, BytesV)):
@@ -2404,6 +2418,15 @@ def call_lib(eng, st, name, args, kwargs, node):
     o.length = o.length - 1
     return v
   if name == "collections.defaultdict":
+    if (args and isinstance(args[0], FuncV) and args[0].kind == "builtin" and args[0].name == "list"
+        and eng.cur is not None and getattr(eng.cur, "point_maps", False)):
+      # defaultdict(list) used as point -> [indexes] multimap (declared by the contract: point_maps = True): starts empty
+      eng.used_theories.add("collections.defaultdict(list) keyed by points: ghost relation pm_has(map, px, py, index); "
+                            "m[(px, py)].append(i) adds exactly (px, py, i)")
+      t = z3.Const(V.fresh_name("pointmap"), V.RefSort)
+      x, y, i = z3.Ints(f"{V.fresh_name('pmx')} {V.fresh_name('pmy')} {V.fresh_name('pmi')}")
+      st.assume(z3.ForAll([x, y, i], z3.Not(PM_HAS(t, x, y, i))))
+      return st.alloc(HPointMap(t))
     return st.alloc(HDict(items={}))
   if name == "random.seed":
     return None
